@@ -719,7 +719,21 @@ class Facts:
             self._ti = ti
         return self._ti
 
+    def _static_closures(self, static_name):
+        if getattr(self, "_sc", None) is None:
+            self._sc = defaultdict(set)
+            for n in self.fns:
+                m = re.match(r"^(.*?)::\{closure#\d+\}", n)
+                if m and m.group(1) in self.statics:
+                    self._sc[m.group(1)].add(n)
+        return self._sc.get(static_name, ())
+
     def _ops_refs(self, op, out):
+        if isinstance(op, dict) and op.get("k") == "const" and isinstance(op.get("val"), dict) \
+                and "static" in op["val"]:
+            # a function that mentions a static may run its (lazy) initialiser
+            for c in self._static_closures(op["val"]["static"]):
+                out.add(c)
         if isinstance(op, dict) and op.get("k") == "const":
             if "fn" in op and op["fn"] in self.fns:
                 out.add(op["fn"])
